@@ -1260,6 +1260,298 @@ theorem code_fuel_indep_gen (fv : Code.Fds) (hfv : FdsPlain fv) (sig : List Char
   rw [e2] at h2
   rw [← h2, h1]
 
+/-! ### Fuel adequacy of the value model, directly (no hypothesis on the descriptors)
+
+`code_fuel_gen` above gets "never `RecursionError`" out of the simulation and therefore inherits its hypothesis on the
+descriptor list.  The recursion structure of `Code.unmarshal` does not depend on what the descriptors are; the
+direct argument below needs no such hypothesis (review 3, item 1.2). -/
+
+theorem padLenOf_norec (c : Char) (x : Nat) : Code.padLenOf c x ≠ .error .recursion := by
+  unfold Code.padLenOf
+  split
+  · simp
+  · split
+    · simp
+    · simp only []
+      repeat' split
+      all_goals simp
+
+theorem unpackFrom_norec (fmt : Char × Char) (data : Bytes) (off : Nat) :
+    Code.unpackFrom fmt data off ≠ .error .recursion := by
+  unfold Code.unpackFrom
+  repeat' split
+  all_goals simp
+
+theorem sizeOf_cases (f : Fn) : (∃ n, Code.sizeOf f = .ok n) ∨ Code.sizeOf f = .error .other := by
+  unfold Code.sizeOf; split <;> simp
+
+theorem fmtOf_cases (f : Fn) (n : Nat) (le : Bool) : (∃ x, Code.fmtOf f n le = .ok x) ∨ Code.fmtOf f n le = .error .other := by
+  unfold Code.fmtOf
+  split
+  · split <;> simp
+  · simp
+
+theorem frameOf_cases (f : Fn) : (∃ n, Code.frameOf f = .ok n) ∨ Code.frameOf f = .error .other := by
+  unfold Code.frameOf; split <;> simp
+
+theorem uFixed_norec (le : Bool) (data : Bytes) (f : Fn) (off : Nat) : Code.uFixed le data f off ≠ .error .recursion := by
+  unfold Code.uFixed
+  rcases sizeOf_cases f with ⟨n, h1⟩ | h1 <;> rcases fmtOf_cases f 0 le with ⟨x, h2⟩ | h2 <;> simp only [h1, h2]
+  · have := unpackFrom_norec x data off
+    cases hu : Code.unpackFrom x data off with
+    | ok v => simp
+    | error e => intro h; simp at h; rw [hu, h] at this; exact this rfl
+  all_goals simp
+
+theorem uLenWord_norec (le : Bool) (data : Bytes) (f : Fn) (off : Nat) : Code.uLenWord le data f off ≠ .error .recursion := by
+  unfold Code.uLenWord
+  rcases fmtOf_cases f 0 le with ⟨x, h2⟩ | h2 <;> simp only [h2]
+  · have := unpackFrom_norec x data off
+    cases hu : Code.unpackFrom x data off with
+    | ok v => cases v <;> simp
+    | error e => intro h; simp at h; rw [hu, h] at this; exact this rfl
+  · simp
+
+theorem uSignature_norec (le : Bool) (data : Bytes) (off : Nat) : Code.uSignature le data off ≠ .error .recursion := by
+  rw [uSignature_eq]
+  repeat' split
+  all_goals simp
+
+theorem buildDict_norec : ∀ (vs : List PyVal) (acc : List (Code.KeyForm × PyVal × PyVal)),
+    Code.buildDict vs acc ≠ .error .recursion
+  | [], acc => by simp [Code.buildDict]
+  | item :: items, acc => by
+    unfold Code.buildDict
+    split
+    · split
+      · exact buildDict_norec items _
+      · simp
+    · simp
+    · simp
+
+theorem elems_norec (elem : Nat → Code.URes) (tc : Char) (stop : Nat) :
+    ∀ n off, stop - off ≤ n → (∀ off', off ≤ off' → elem off' ≠ .error .recursion) →
+      Code.unmarshalElems elem tc stop n off ≠ .error .recursion := by
+  intro n
+  induction n with
+  | zero =>
+    intro off hn _
+    rw [Code.unmarshalElems.eq_def]
+    have : ¬ off < stop := by omega
+    simp [this]
+  | succ n ih =>
+    intro off hn helem
+    rw [Code.unmarshalElems.eq_def]
+    by_cases hlt : off < stop
+    · simp only [hlt, if_true]
+      cases hp : Code.padLenOf tc off with
+      | error e => intro h; simp only [Except.error.injEq] at h; rw [h] at hp; exact padLenOf_norec _ _ hp
+      | ok p =>
+        simp only []
+        cases hel : elem (off + p) with
+        | error e =>
+          intro h; simp only [Except.error.injEq] at h; rw [h] at hel; exact helem _ (Nat.le_add_right _ _) hel
+        | ok nv =>
+          obtain ⟨nb, v⟩ := nv
+          simp only []
+          by_cases hz : nb = 0
+          · simp [hz]
+          · simp only [hz, if_false]
+            have := ih (off + p + nb) (by omega) (fun off' h => helem off' (by omega))
+            cases hr : Code.unmarshalElems elem tc stop n (off + p + nb) with
+            | error e => intro h; simp only [Except.error.injEq] at h; rw [h] at hr; exact this hr
+            | ok x => simp
+    · simp [hlt]
+
+theorem seq_norec (one : List Char → Nat → Code.URes) (perr : Option SplitErr) :
+    ∀ pieces off, (∀ ct off', ct ∈ pieces → off ≤ off' → one ct off' ≠ .error .recursion) →
+      Code.unmarshalSeq one pieces perr off ≠ .error .recursion := by
+  intro pieces
+  induction pieces with
+  | nil =>
+    intro off _
+    simp only [Code.unmarshalSeq]
+    cases perr with
+    | none => simp
+    | some e => cases e <;> simp [Code.splitErr]
+  | cons ct ps ih =>
+    intro off hone
+    simp only [Code.unmarshalSeq]
+    cases hh : ct.head? with
+    | none => simp
+    | some tc =>
+      simp only []
+      cases hp : Code.padLenOf tc off with
+      | error e => intro h; simp only [Except.error.injEq] at h; rw [h] at hp; exact padLenOf_norec _ _ hp
+      | ok p =>
+        simp only []
+        cases hel : one ct (off + p) with
+        | error e =>
+          intro h; simp only [Except.error.injEq] at h; rw [h] at hel
+          exact hone ct _ List.mem_cons_self (Nat.le_add_right _ _) hel
+        | ok nv =>
+          obtain ⟨nb, v⟩ := nv
+          simp only []
+          have := ih (off + p + nb) (fun ct' off' hm h => hone ct' off' (List.mem_cons_of_mem _ hm) (by omega))
+          cases hr : Code.unmarshalSeq one ps perr (off + p + nb) with
+          | error e => intro h; simp only [Except.error.injEq] at h; rw [h] at hr; exact this hr
+          | ok x => simp
+
+theorem lazyFuel_len : ∀ (n : Nat) (s ct : List Char), ct ∈ (lazyFuel n s).1 → ct.length ≤ s.length
+  | _, [], ct, h => by rw [lazyFuel_nil] at h; simp at h
+  | 0, _ :: _, ct, h => by simp [lazyFuel] at h
+  | n + 1, c :: cs, ct, h => by
+    simp only [lazyFuel] at h
+    cases hft : firstType (c :: cs) with
+    | error e => simp [hft] at h
+    | ok p =>
+      obtain ⟨ct0, rest⟩ := p
+      simp only [hft, List.mem_cons] at h
+      have hs := (Cost.firstType_split _ _ _ hft).1
+      rcases h with rfl | h
+      · omega
+      · have := lazyFuel_len n rest ct h
+        omega
+
+theorem top_norec (one : List Char → Nat → Code.URes) (sig : List Char) (off : Nat)
+    (h : ∀ ct off', ct.length ≤ sig.length → off ≤ off' → one ct off' ≠ .error .recursion) :
+    Code.unmarshalTop one sig off ≠ .error .recursion := by
+  unfold Code.unmarshalTop lazyPieces
+  have := seq_norec one (lazyFuel sig.length sig).2 (lazyFuel sig.length sig).1 off
+    (fun ct off' hm hle => h ct off' (lazyFuel_len _ _ _ hm) hle)
+  cases hr : Code.unmarshalSeq one (lazyFuel sig.length sig).1 (lazyFuel sig.length sig).2 off with
+  | error e => intro h'; simp only [hr, Except.error.injEq] at h'; rw [h'] at hr; exact this hr
+  | ok x => simp [hr]
+
+/-- `norec_cases X using p with a`: case split on the intermediate result `X` (with `p : X ≠ .error .recursion`) in a
+goal `(match X with | .error e => .error e | .ok a => ..) ≠ .error .recursion`; closes the error case. -/
+local macro "norec_cases " x:term " using " p:term " with " a:ident hx:ident : tactic =>
+  `(tactic| (have hX := $p
+             cases $hx:ident : $x
+             · intro h'; simp only [Except.error.injEq] at h'; rw [$hx:ident, h'] at hX; exact hX rfl
+             rename_i $a:ident
+             try simp only []))
+
+/-- **Direct depth argument on the value model alone**: more fuel than `|ct| + (|data| - off)` and a per-type call never
+runs out of it.  Every nesting level is paid for by a signature character (array, struct, dict entry) or, for a
+variant, by the bytes that carry its signature.  No hypothesis on the descriptors. -/
+theorem one_norec (le : Bool) (data : Bytes) (fds : Code.Fds) :
+    ∀ g ct off, ct.length + (data.length - off) < g → Code.unmarshalOne le data fds g ct off ≠ .error .recursion
+  | 0, _, _, h => by omega
+  | g + 1, ct, off, h => by
+    have ih := one_norec le data fds g
+    cases ct with
+    | nil => rw [unmarshalOne_nil]; simp
+    | cons c tl =>
+      rw [unmarshalOne_succ]
+      simp only [List.length_cons] at h
+      cases hl : Gen.Wire.unmarshallers.lookup c with
+      | none => simp
+      | some f =>
+        simp only []
+        cases hc : fnClass f with
+        | fixed => simp only [codeArm]; exact uFixed_norec _ _ _ _
+        | bool =>
+          simp only [codeArm]
+          norec_cases (Code.uFixed le data f off) using (uFixed_norec le data f off) with nv hx
+          obtain ⟨n, v⟩ := nv
+          cases v <;> simp
+        | fd =>
+          simp only [codeArm]
+          rcases sizeOf_cases f with ⟨n, h1⟩ | h1 <;> simp only [h1]
+          · norec_cases (Code.uLenWord le data f off) using (uLenWord_norec le data f off) with i hx
+            cases fds <;> simp
+          · cases Code.uLenWord le data f off <;> simp
+        | string =>
+          simp only [codeArm]
+          norec_cases (Code.uLenWord le data f off) using (uLenWord_norec le data f off) with slen hx
+          rcases frameOf_cases f with ⟨n, h1⟩ | h1 <;> simp only [h1] <;>
+            cases utf8Decode (Code.pySlice data (off + 4) (off + 4 + slen)) <;> simp
+        | signature =>
+          simp only [codeArm]
+          norec_cases (Code.uSignature le data off) using (uSignature_norec le data off) with ns hx
+          simp
+        | array =>
+          simp only [codeArm, List.tail_cons]
+          norec_cases (Code.uLenWord le data f off) using (uLenWord_norec le data f off) with dlen hx
+          cases hh : tl.head? with
+          | none => simp
+          | some ec =>
+            simp only []
+            norec_cases (Code.padLenOf ec (off + 4)) using (padLenOf_norec ec (off + 4)) with p0 hx
+            norec_cases (Code.unmarshalElems (Code.unmarshalOne le data fds g tl) ec (off + 4 + p0 + dlen) dlen (off + 4 + p0))
+              using (elems_norec (Code.unmarshalOne le data fds g tl) ec (off + 4 + p0 + dlen) dlen (off + 4 + p0) (by omega)
+                (fun off' hle => ih tl off' (by omega))) with ov hx
+            obtain ⟨o, values⟩ := ov
+            simp only []
+            split
+            · simp
+            · split
+              · norec_cases (Code.buildDict values []) using (buildDict_norec values []) with d hx
+                simp
+              · simp
+        | struct =>
+          simp only [codeArm, List.tail_cons]
+          have hdl : tl.dropLast.length ≤ tl.length := by simp [List.length_dropLast]
+          norec_cases (Code.unmarshalTop (Code.unmarshalOne le data fds g) tl.dropLast off)
+            using (top_norec (Code.unmarshalOne le data fds g) tl.dropLast off
+              (fun ct' off' hlen hle => ih ct' off' (by omega))) with nv hx
+          simp
+        | variant =>
+          simp only [codeArm]
+          norec_cases (Code.uSignature le data off) using (uSignature_norec le data off) with nv hsg
+          obtain ⟨nsig, vsig⟩ := nv
+          simp only []
+          cases hh : vsig.head? with
+          | none => simp
+          | some vc =>
+            simp only []
+            norec_cases (Code.padLenOf vc (off + nsig)) using (padLenOf_norec vc (off + nsig)) with p hx
+            -- what `uSignature` returned: the signature is cut from the data after the length byte
+            have hnv := hsg
+            rw [uSignature_eq] at hnv
+            by_cases hle : off + 1 ≤ data.length
+            · simp only [hle, if_true] at hnv
+              generalize hsl : Cost.uval le (Cost.slice data off (off + 1)) = slen at hnv
+              cases hd : asciiDecode (Cost.slice data (off + 1) (off + 1 + slen)) with
+              | none => simp [hd] at hnv
+              | some s =>
+                simp only [hd, Except.ok.injEq, Prod.mk.injEq] at hnv
+                obtain ⟨rfl, rfl⟩ := hnv
+                have hlen := Cost.asciiDecode_length _ _ hd
+                have h1 := Cost.slice_length_le data (off + 1) (off + 1 + slen)
+                have h2 := Cost.slice_length_le' data (off + 1) (off + 1 + slen)
+                norec_cases (Code.unmarshalTop (Code.unmarshalOne le data fds g) s (off + (2 + slen) + p))
+                  using (top_norec (Code.unmarshalOne le data fds g) s (off + (2 + slen) + p)
+                    (fun ct' off' hlen' hle' => ih ct' off' (by omega))) with nv hx
+                obtain ⟨nvar, vs⟩ := nv
+                cases vs <;> simp
+            · simp [hle] at hnv
+        | bad => simp [codeArm]
+
+/-- `Code.unmarshal` with `codeFuel` units of fuel (or more) does not run out of it - for every signature, data, offset,
+byte order and EVERY descriptor argument. -/
+theorem code_norec_gen (fv : Code.Fds) (sig : List Char) (data : Bytes) (off : Nat) (le : Bool) (fuelV : Nat)
+    (hV : Cost.codeFuel sig data off ≤ fuelV) : Code.unmarshal fuelV sig data off le fv ≠ .error .recursion := by
+  unfold Code.unmarshal
+  refine top_norec _ _ _ (fun ct off' hlen hle => one_norec le data fv fuelV ct off' ?_)
+  simp only [Cost.codeFuel] at hV
+  omega
+
+/-- `code_fuel_indep_gen` without the hypothesis on the descriptors. -/
+theorem code_fuel_indep_free (fv : Code.Fds) (sig : List Char) (data : Bytes) (off : Nat) (le : Bool)
+    (g : Nat) (hg : Code.unmarshal g sig data off le fv ≠ .error .recursion)
+    (fuel : Nat) (hV : Cost.codeFuel sig data off ≤ fuel) :
+    Code.unmarshal fuel sig data off le fv = Code.unmarshal g sig data off le fv := by
+  have hf := code_norec_gen fv sig data off le fuel hV
+  have h1 := unmarshal_mono_add sig data off le fv g (max g fuel - g) hg
+  have h2 := unmarshal_mono_add sig data off le fv fuel (max g fuel - fuel) hf
+  have e1 : g + (max g fuel - g) = max g fuel := by omega
+  have e2 : fuel + (max g fuel - fuel) = max g fuel := by omega
+  rw [e1] at h1
+  rw [e2] at h2
+  rw [← h2, h1]
+
 /-- What `Code.unmarshal` returns is bounded by the input: the objects in the decoded values (`nodesList`) number at
 most `Cost.stepBound sig data off` - linear in the data length (`result_size_bounded` and `unmarshal_steps_linear`
 carried over to the value model). -/
